@@ -15,7 +15,8 @@ def generate(G):
     dense([2, 2], 2, 2, "None", "quick", dom="D2")
     dense([2, 2], 2, 1, "Relu", "quick", dom="D2")
     dense([1, 2], 2, 2, "Sigmoid", "quick", dom="D2", stubs=("exp",))
-    dense([2, 1], 1, 2, "Softmax", "quick", dom="D2", stubs=("exp",))
+    dense([2, 1], 1, 2, "Softmax", "thorough", dom="D2", stubs=("exp",))
+    dense([1], 1, 2, "Softmax", "quick", dom="D2", stubs=("exp",))
     dense([2], 2, 1, "Relu", "thorough")
     dense([3], 3, 2, "None", "thorough", dom="D2")
     dense([2, 3], 3, 1, "None", "thorough", dom="D2")
